@@ -380,6 +380,41 @@ func main() {
 				tb = append(tb, "declared assumption: "+a)
 			}
 		}
+		if *prop != "T3" {
+			// closure-tier clauses of the functions in this run: assumed here, attempted by `./check T3`
+			nT3 := 0
+			var t3names []string
+			for _, r := range runs {
+				for _, n := range funcsUnder {
+					c := r.cs.ByName[n]
+					if c == nil {
+						continue
+					}
+					for _, cl := range c.Requires {
+						if hasTag(cl.Tags, "T3") {
+							nT3++
+							t3names = append(t3names, n+"/requires/"+cl.Label)
+						}
+					}
+					for _, cl := range c.Ensures {
+						if hasTag(cl.Tags, "T3") {
+							nT3++
+							t3names = append(t3names, n+"/ensures/"+cl.Label)
+						}
+					}
+					for _, cl := range c.Invs {
+						if hasTag(cl.Tags, "T3") {
+							nT3++
+							t3names = append(t3names, n+"/invariant/"+cl.Label)
+						}
+					}
+				}
+			}
+			if nT3 > 0 {
+				sort.Strings(t3names)
+				tb = append(tb, fmt.Sprintf("closure tier T3 (tree-wide shape/path invariants carried through calls): %d clauses assumed by this run, not proved here: %s", nT3, strings.Join(t3names, ", ")))
+			}
+		}
 		sort.Strings(tb)
 		// the level is the one claimed in MANIFEST.json for this property; a proof-level claim
 		// with an undischarged obligation is a violation anyway
